@@ -130,20 +130,23 @@ def action_coverage(out):
 # ---------------------------------------------------------------------------------------------
 # conformance A: batch trace validation
 
-_TUPLE = re.compile(r"^<<\"(REJECT|MISMATCH)\", (.*)>>\s*$", re.M)
+_LINE = re.compile(r'^"(REJECT|MISMATCH)\|(.*)"\s*$', re.M)
 
 
 def _parse_prints(out):
     rejects, mism = {}, {}
-    for m in _TUPLE.finditer(out):
+    for m in _LINE.finditer(out):
         kind, rest = m.group(1), m.group(2)
         if kind == "REJECT":
-            a, b = rest.split(",")
+            a, b = rest.split("|")
             rejects[int(a)] = int(b)
         else:
-            parts = rest.split(",", 3)
-            t, l, name = int(parts[0]), int(parts[1]), parts[2].strip().strip('"')
-            mism.setdefault((t, l), []).append((name, parts[3].strip() if len(parts) > 3 else ""))
+            parts = rest.split("|", 3)
+            t, l, name = int(parts[0]), int(parts[1]), parts[2]
+            detail = parts[3].replace('\\"', '"') if len(parts) > 3 else ""
+            lst = mism.setdefault((t, l), [])
+            if (name, detail) not in lst:
+                lst.append((name, detail))
     return rejects, mism
 
 
